@@ -70,4 +70,13 @@ theorem canon_blockbase (s : St) (n : Nat) (hn : n < 2^22) (h3 : s.locs 3 = n) (
     Ev.murBlockIn.injEq, true_and]
   omega
 
+/-- non-vacuity: a context 3000 bytes into a stream meets the premises of `canon_fin`, and the stitched finalize then
+    hands murmur3 59 whole blocks (952 buffered bytes) and the tail at offset 944 -/
+example : (run (canon 5 true) { total := 3000 }).res =
+    some ([.murBlock 0 59, .murTail 944 3000, .shaTail 3000] ++ evOuts .sha 5 ++ evOuts .mur 4, 0) := by decide
+example : (3000 : Nat) < 2^64 ∧ ({ total := 3000 } : St).evs = [] := by decide
+/-- non-vacuity of `canon_blockbase` -/
+example : (run canonBlockBase { total := 0, locs := fun i => if i = 3 then 7 else 0 }).res =
+    some ([.shaBlockIn 7, .murBlockIn 448], 0) := by decide
+
 end IsalVerif.MhFinC
